@@ -117,9 +117,14 @@ def evaluate(case):
     with genpkg.scratch() as d:
         src = case["source"]
         options = dict(case.get("options") or {})
+        SCHEMA_TEXT = case.get("schema_text") or SCHEMA6
+        if case.get("files"):
+            for fn, txt in case["files"].items():
+                open(os.path.join(d, fn), "w").write(txt)
+            options["files_to_include"] = [os.path.join(d, fn) for fn in case["files"]]
         recorded = {}
-        if src["kind"] == "introspection":
-            schema = build_schema(SCHEMA6)
+        if src["kind"] in ("introspection", "both"):
+            schema = build_schema(SCHEMA_TEXT if src["kind"] == "introspection" else "type Query { stale: Int }")
 
             def fake_post(url, json=None, headers=None, verify=True, **kw):
                 recorded.update(url=url, headers=dict(headers or {}), verify=verify, extra=sorted(kw))
@@ -127,6 +132,9 @@ def evaluate(case):
                 if mode == "ok":
                     res = graphql_sync(schema, json["query"])
                     return FakeResp(200, {"data": res.data})
+                if mode.startswith("valid_body_status"):
+                    res = graphql_sync(schema, json["query"])
+                    return FakeResp(int(mode[17:]), {"data": res.data})
                 if mode == "ok_extensions":
                     res = graphql_sync(schema, json["query"])
                     return FakeResp(200, {"data": res.data, "extensions": {"x": 1}})
@@ -165,9 +173,9 @@ def evaluate(case):
             options["remote_schema_url"] = "http://verif.invalid/graphql"
             for k, v in (src.get("env") or {}).items():
                 os.environ[k] = v
-            schema_arg = None
+            schema_arg = None if src["kind"] == "introspection" else SCHEMA_TEXT
         else:
-            schema_arg = src["files"] if src["kind"] == "dir" else SCHEMA6
+            schema_arg = src["files"] if src["kind"] == "dir" else SCHEMA_TEXT
         if case.get("strategy") == "graphqlschema":
             from ariadne_codegen.main import graphql_schema
             import contextlib
@@ -256,6 +264,25 @@ def build_cases(tier):
                 # the same walker serves queries_path: operations split the same way
                 qfiles = {f"{folder}{stem}{ext}": OPSETS["ops1"].split("\n")[0] + "\n", "zz_rest.graphql": "\n".join(OPSETS["ops1"].split("\n")[1:]) + "\n"}
                 cases.append(dict(label="odd_names_queries", queries=qfiles, opset="ops1", source={"kind": "file"}, tags={"source:file", "odd_names", "queries_dir", f"place:{folder}{stem}{ext}"}))
+    # both sources configured: schema_path has priority (README), the remote endpoint serves an older schema and must not matter
+    for opn, q in OPSETS.items():
+        cases.append(dict(label="both_sources", queries=q, opset=opn, source={"kind": "both"}, tags={"source:both"}))
+    # a configured custom scalar in input fields: nullability / defaults of the input models must not depend on the source
+    sc_schema = SCHEMA6 + "scalar Stamp\ninput Win { at: Stamp ats: [Stamp!] req: Stamp! opt: Int }\nextend type Query { win(w: Win, at: Stamp): Int }\n"
+    sc_q = "query W($w: Win, $at: Stamp) { win(w: $w, at: $at) }\n"
+    mod_txt = "def ser(v):\n    return int(v)\n\n\ndef par(v):\n    return int(v)\n"
+    for cn, sc in (("type", {"type": "int"}), ("type_serialize", {"type": "int", "serialize": ".stamp_mod.ser"}), ("type_parse", {"type": "int", "parse": ".stamp_mod.par"}),
+                   ("type_both", {"type": "int", "serialize": ".stamp_mod.ser", "parse": ".stamp_mod.par"})):
+        common = dict(queries=sc_q, opset=f"scalar:{cn}", schema_text=sc_schema, options={"scalars": {"Stamp": sc}}, files={"stamp_mod.py": mod_txt} if len(sc) > 1 else None)
+        cases.append(dict(common, label="single_file", source={"kind": "file"}, tags={"source:file", f"scalar_cfg:{cn}"}))
+        cases.append(dict(common, label="scalar_introspection", source={"kind": "introspection"}, tags={"source:introspection", f"scalar_cfg:{cn}"}))
+        cases.append(dict(common, label="scalar_dir", source={"kind": "dir", "files": {"a.graphql": SCHEMA6, "sub/b.gql": sc_schema[len(SCHEMA6):]}}, tags={"source:dir", f"scalar_cfg:{cn}"}))
+    # every status class with a WELL-FORMED introspection body: only 2xx may be accepted
+    for status in (100, 101, 199, 300, 301, 302, 304, 307, 308, 400, 401, 404, 500, 503):
+        cases.append(dict(label="introspection_failure", queries=OPSETS["ops1"], opset="ops1", source={"kind": "introspection", "answer": f"valid_body_status{status}"}, expect="IntrospectionError",
+                          tags={f"failure:status{status // 100}xx_valid_body", f"status:{status}"}))
+    for status in (201, 203, 206, 226, 299):
+        cases.append(dict(label="introspection_2xx", queries=OPSETS["ops1"], opset="ops1", source={"kind": "introspection", "answer": f"valid_body_status{status}"}, tags={"source:introspection", f"status:{status}"}))
     # failures
     for mode in ("invalid_utf8_body", "latin1_html_body", "invalid_url", "status100", "status301", "status404", "status500", "non_json", "json_array", "no_data", "errors", "errors_with_data", "data_not_object", "data_null",
                  "data_without_schema", "truncated_schema", "schema_null"):
@@ -324,7 +351,8 @@ def main(tier):
     distinct = set()
     for case, (st, r) in zip(cases, results):
         feats = set(case["tags"]) | {f"opset:{case['opset']}"}
-        desc = {"label": case["label"], "source": {k: v for k, v in case["source"].items()}, "opset": case["opset"], "partition": case.get("partition"), "options": case.get("options")}
+        desc = {"label": case["label"], "source": {k: v for k, v in case["source"].items()}, "opset": case["opset"], "partition": case.get("partition"), "options": case.get("options"),
+                "queries": case["queries"] if case["opset"] not in OPSETS else None}
         distinct.add(json.dumps(desc, sort_keys=True, default=str))
         if rep.triage:
             rep.seen(feats)
